@@ -4,7 +4,8 @@ CONSTANTS
   Regions = {"type", "vmaj", "vmin", "lenhi", "lenlo", "lenover", "first", "mid", "macstart", "pad", "last"}
   InjKinds = {"garbage", "plainalert", "empty", "ccs", "hsfinished"}
   PadAuth = @PADAUTH@
+  MaxPost = 3
 INIT Init
 NEXT Next
-INVARIANTS TypeOK PrefixOK StopsAtTamper Detected DeliversCleanPrefix
+INVARIANTS TypeOK PrefixOK StopsAtTamper Detected NothingAfterError DeliversCleanPrefix
 CHECK_DEADLOCK FALSE
